@@ -291,6 +291,20 @@ func (r *rw) rewriteSelectors(f *ast.File) {
 			case r.pkgIs(x.X, "crypto/tls") && (x.Sel.Name == "Dial" || x.Sel.Name == "Listen" || x.Sel.Name == "NewListener" || x.Sel.Name == "DialWithDialer"):
 				r.err = fmt.Errorf("unsupported direct use of tls.%s", x.Sel.Name)
 			}
+		case *ast.CallExpr:
+			// srv.ServeTLS(listener, "", "") -> srv.Serve(simnet.TLSListener(listener, srv.TLSConfig))
+			if se, ok := x.Fun.(*ast.SelectorExpr); ok && se.Sel.Name == "ServeTLS" && len(x.Args) == 3 {
+				if a, ok := x.Args[1].(*ast.BasicLit); ok && a.Value == `""` {
+					if b, ok := x.Args[2].(*ast.BasicLit); ok && b.Value == `""` {
+						se.Sel = ast.NewIdent("Serve")
+						x.Args = []ast.Expr{&ast.CallExpr{
+							Fun:  &ast.SelectorExpr{X: ast.NewIdent("simnet"), Sel: ast.NewIdent("TLSListener")},
+							Args: []ast.Expr{x.Args[0], &ast.SelectorExpr{X: se.X, Sel: ast.NewIdent("TLSConfig")}},
+						}}
+						r.usesNet = true
+					}
+				}
+			}
 		case *ast.CompositeLit:
 			if se, ok := x.Type.(*ast.SelectorExpr); ok && r.pkgIs(se.X, "github.com/gorilla/websocket") && se.Sel.Name == "Dialer" {
 				has, sim := false, false
